@@ -17,7 +17,8 @@ import (
 // set not installed) breaks them although every anchored function is intact.
 
 // facadeFuncs: exported package-level functions of package valid that obtain a validator object
-// from one of the constructors (directly, helpers introduced later are inlined before analysis).
+// from one of the constructors or run a validator's Valid method (directly or through a sibling entry
+// point; helpers introduced later are inlined before analysis).
 func facadeFuncs(p *Prog) []*ssa.Function {
 	pkg := p.Pkg("valid")
 	if pkg == nil {
@@ -30,22 +31,29 @@ func facadeFuncs(p *Prog) []*ssa.Function {
 		}
 	}
 	var out []*ssa.Function
-	for _, fn := range p.Funcs {
-		if fn.Pkg != pkg || fn.Parent() != nil || fn.Signature.Recv() != nil || fn.Object() == nil || !fn.Object().Exported() || ctors[fn] {
-			continue
-		}
-		uses := false
-		for _, b := range fn.Blocks {
-			for _, ins := range b.Instrs {
-				if call, ok := ins.(ssa.CallInstruction); ok {
-					if sc := staticCallee(call.Common()); sc != nil && (ctors[sc]) {
-						uses = true
+	in := map[*ssa.Function]bool{}
+	// directly, or through a sibling entry point (a wrapper that calls another wrapper)
+	for changed := true; changed; {
+		changed = false
+		for _, fn := range p.Funcs {
+			if fn.Pkg != pkg || fn.Parent() != nil || fn.Signature.Recv() != nil || fn.Object() == nil || !fn.Object().Exported() || ctors[fn] || in[fn] {
+				continue
+			}
+			uses := false
+			for _, b := range fn.Blocks {
+				for _, ins := range b.Instrs {
+					if call, ok := ins.(ssa.CallInstruction); ok {
+						if sc := staticCallee(call.Common()); sc != nil && (ctors[sc] || in[sc] || (sc.Pkg == pkg && sc.Name() == "Valid" && sc.Signature.Recv() != nil)) {
+							uses = true
+						}
 					}
 				}
 			}
-		}
-		if uses {
-			out = append(out, fn)
+			if uses {
+				in[fn] = true
+				out = append(out, fn)
+				changed = true
+			}
 		}
 	}
 	sort.Slice(out, func(i, j int) bool { return fnName(out[i]) < fnName(out[j]) })
@@ -167,14 +175,61 @@ func runFacadeForward(c *Ctx, rule string) {
 				}
 			}
 			// search a path entry -> return that avoids every consuming block and every 'empty' edge
-			seen := map[*ssa.BasicBlock]bool{}
+			// path search with the boolean flags merged from constants remembered along the path (a flag set
+			// together with the parameter's projection on the branch that found it non-empty)
+			type at struct {
+				b, from *ssa.BasicBlock
+				env     string
+			}
+			seen := map[at]bool{}
 			var leak *ssa.BasicBlock
-			var dfs func(b *ssa.BasicBlock)
-			dfs = func(b *ssa.BasicBlock) {
-				if leak != nil || seen[b] || good[b] {
+			var dfs func(b, from *ssa.BasicBlock, env map[*ssa.Phi]bool)
+			envKey := func(env map[*ssa.Phi]bool) string {
+				var ks []string
+				for p, v := range env {
+					ks = append(ks, fmt.Sprintf("%s=%v", p.Name(), v))
+				}
+				sort.Strings(ks)
+				return strings.Join(ks, ",")
+			}
+			dfs = func(b, from *ssa.BasicBlock, env map[*ssa.Phi]bool) {
+				if leak != nil || good[b] {
 					return
 				}
-				seen[b] = true
+				// flags decided by the edge we came through
+				if from != nil {
+					var upd map[*ssa.Phi]bool
+					for _, ins := range b.Instrs {
+						phi, ok := ins.(*ssa.Phi)
+						if !ok {
+							break
+						}
+						for i, p := range b.Preds {
+							if p != from {
+								continue
+							}
+							if upd == nil {
+								upd = map[*ssa.Phi]bool{}
+								for k, v := range env {
+									upd[k] = v
+								}
+							}
+							if k, isK := constBool(phi.Edges[i]); isK {
+								upd[phi] = k
+							} else {
+								delete(upd, phi)
+							}
+						}
+					}
+					if upd != nil {
+						env = upd
+					}
+				}
+				key := at{b, from, envKey(env)}
+				if seen[key] {
+					return
+				}
+				seen[key] = true
 				last := b.Instrs[len(b.Instrs)-1]
 				if _, isRet := last.(*ssa.Return); isRet {
 					leak = b
@@ -182,16 +237,28 @@ func runFacadeForward(c *Ctx, rule string) {
 				}
 				if iff, ok := last.(*ssa.If); ok {
 					if es, ok := lenTest(iff, func(v ssa.Value) bool { return set[v] }); ok {
-						dfs(b.Succs[1-es])
+						dfs(b.Succs[1-es], b, env)
+						return
+					}
+					k, isK := constBool(iff.Cond)
+					if phi, isPhi := iff.Cond.(*ssa.Phi); isPhi {
+						k, isK = env[phi]
+					}
+					if isK {
+						if k {
+							dfs(b.Succs[0], b, env)
+						} else {
+							dfs(b.Succs[1], b, env)
+						}
 						return
 					}
 				}
 				for _, s := range b.Succs {
-					dfs(s)
+					dfs(s, b, env)
 				}
 			}
 			if len(fn.Blocks) > 0 {
-				dfs(fn.Blocks[0])
+				dfs(fn.Blocks[0], nil, map[*ssa.Phi]bool{})
 			}
 			c.Check(leak == nil, rule, fnName(fn), "param:"+prm.Name(), prm.Pos(), "handed on (or tested empty) on every path",
 				func() string {
